@@ -231,6 +231,7 @@ pub fn run(e: &'static Engine) {
         }));
     }
     e.par(jobs);
+    super::common::extreme_parts(e, check);
     e.put("cells_total", json!(160));
     e.set_exhaustive(true, "40 versions x 4 levels x all 28 mask pairs x every coordinate of each symbol; payloads are sampled");
 }
